@@ -45,7 +45,7 @@ describe(
         "stop exception derives from TerminationCriterion which execute() catches at the root and converts "
         "into a result; no wrapper swallows it; DOE evaluates samples in order, once, pre-seeded in order."
     ),
-    decided=["3.1 budget guard", "3.2 counter increment", "3.3 new-iteration signal", "3.4 listening window", "3.5 termination -> result", "3.6 no swallowed stop signal", "3.7 DOE order", "3.8 the NaN policy reaches every NaN check", "3.9 no stop criterion resets the evaluation counter"],
+    decided=["3.11 structured designs within the sample budget (rule group 14.5 of C14)", "3.1 budget guard", "3.2 counter increment", "3.3 new-iteration signal", "3.4 listening window", "3.5 termination -> result", "3.6 no swallowed stop signal", "3.7 DOE order", "3.8 the NaN policy reaches every NaN check", "3.9 no stop criterion resets the evaluation counter"],
     not_decided=["behaviour of third-party optimisers between callbacks", "time-limit accuracy", "per-level budgets of composite algorithms"],
 )
 
@@ -753,6 +753,12 @@ def run(ctx: Ctx) -> None:
     check_stop_classes(ctx)
     check_no_swallow(ctx)
     check_doe_run(ctx)
+    # the budget of a DOE is its number of samples: a structured design never has more points than were asked for
+    # (rule group 14.5 of C14: size(levels computed from n_samples) <= n_samples, proved on terms)
+    from gv.props import c14
+    from gv.props.c12 import _Prefixed
+
+    c14.check_stratified_levels(_Prefixed(ctx, "3.11-sample-budget/"))
     if ctx.counts.get("3.2-overrides", 0) < 1:
         raise AnalysisError("no override of _new_iteration_callback found (BaseOptimizationLibrary expected)")
 
